@@ -150,6 +150,8 @@ pub enum Step {
     Spawn { slot: usize, marked: bool, comps: Vec<K> },
     Despawn { slot: usize },
     Marker { slot: usize, on: bool },
+    /// insert the replication marker again on an entity that already carries it (e.g. as part of a larger bundle)
+    Remark { slot: usize },
     Insert { slot: usize, k: K },
     Remove { slot: usize, k: K },
     Mutate { slot: usize, k: K },
@@ -162,7 +164,9 @@ pub enum Step {
     Vis { client: usize, slot: usize, visible: bool },
     /// several `set_visibility` calls in a row (repeated and mutually cancelling calls inside one tick window)
     VisBurst { client: usize, slot: usize, pattern: Vec<bool> },
-    PreSpawn { client: usize, slot: usize, kill: bool, gap: bool },
+    /// `early`: the mapping is registered a tick (or more) before the entity becomes visible to the client: the server entity
+    /// starts without the replication marker (whitelist: marked but not yet shown); a later step makes it visible
+    PreSpawn { client: usize, slot: usize, kill: bool, gap: bool, #[serde(default)] early: bool },
     EmitS { kind: SK, mode: u8, target: usize, refslot: usize },
     EmitC { client: usize, kind: CK, refslot: usize },
     ServerFrame { tick: bool },
